@@ -1,5 +1,5 @@
 (* C20 — property theorems only. Statements are pinned by props/C20.json. *)
-From PV Require Import Lib.Base C20.Model C20.Proofs.
+From PV Require Import Lib.Base C20.Model C20.Proofs C20.Sched C20.SchedProofs.
 Open Scope Z_scope.
 
 Theorem header_roundtrip : forall h, header_wf h -> header_decode (header_encode h) = Ok h.
@@ -73,3 +73,77 @@ Proof. cbv zeta. split; [repeat constructor; unfold u32, u16, len; cbn; lia|]. r
 Example oversize_chunk_misframed :
   len (fst (parse (mux_bytes [(0, 2, repeat 0 (Z.to_nat 65536))]))) = 8193.
 Proof. vm_compute. reflexivity. Qed.
+
+(* ------------------------------------------------------------------ schedule level *)
+(* the multiplexer as a transition system (C20/Sched.v): agents enqueue into the muxer's
+   bounded queue, the muxer frames one segment at a time onto the bearer, bytes become
+   readable in arbitrary fragments, the demuxer reads header / payload and routes by
+   protocol id, BLOCKING while the subscriber's bounded queue is full, consumers dequeue
+   at arbitrary times.  A schedule is any list of such steps. *)
+
+(* safety, for EVERY schedule, every reachable state and any queue capacities: per channel,
+   delivered ++ (egress queue ++ segments on the bearer ++ ingress queue) = sent - nothing
+   lost, duplicated, reordered or cross-delivered at any point *)
+Theorem schedule_safety : forall cfg sched st,
+  lossy cfg = false -> Forall choice_wf sched -> exec cfg init sched = Some st -> safe cfg st.
+Proof. exact safety_all_schedules. Qed.
+
+Theorem schedule_safety_roles : forall cfg sched st r p,
+  lossy cfg = false -> Forall choice_wf sched -> exec cfg init sched = Some st ->
+  subscribed cfg (recv_id r p) = true ->
+  delivered st (recv_id r p) ++ in_flight (recv_id r p) st = sent st (send_id (peer r) p).
+Proof. exact safety_roles. Qed.
+
+(* progress: no reachable state with data on its way is stuck - some step other than a new
+   enqueue is enabled (with capacities >= 1) *)
+Theorem schedule_no_stuck_state : forall cfg sched st,
+  lossy cfg = false -> (1 <= cap_out cfg)%nat -> Forall choice_wf sched ->
+  exec cfg init sched = Some st -> pending st ->
+  exists c, is_enqueue c = false /\ exec_step cfg st c <> None.
+Proof. exact no_stuck_reachable. Qed.
+
+(* a demuxer blocked in send().await is released by one dequeue of the full queue *)
+Theorem blocked_demuxer_released_by_dequeue : forall cfg sched st p x,
+  (1 <= cap_out cfg)%nat -> exec cfg init sched = Some st ->
+  dmx st = DHolding p x -> exec_step cfg st CDemux = None ->
+  exists st1 st2, exec_step cfg st (CDequeue p) = Some st1 /\ exec_step cfg st1 CDemux = Some st2 /\ dmx st2 = DIdle.
+Proof. exact blocked_released_reachable. Qed.
+
+(* bounded progress: from any reachable state, ANY run of steps other than new enqueues is at
+   most [mu] steps long (every such step moves data forward) - together with the two theorems
+   above: whatever the scheduler does, as long as it keeps taking enabled steps and consumers
+   keep dequeuing, after at most mu steps nothing is pending and everything sent is delivered *)
+Theorem schedule_bounded_progress : forall cfg ids pre sched st st',
+  lossy cfg = false -> NoDup ids -> (forall id, subscribed cfg id = true -> In id ids) ->
+  Forall choice_wf pre -> exec cfg init pre = Some st ->
+  Forall choice_wf sched -> Forall (fun c => is_enqueue c = false) sched ->
+  exec cfg st sched = Some st' -> (length sched <= mu ids st)%nat.
+Proof. exact bounded_progress_reachable. Qed.
+
+(* once nothing is pending every subscriber has received exactly what was sent to it *)
+Theorem schedule_all_delivered_when_idle : forall cfg sched st,
+  lossy cfg = false -> Forall choice_wf sched -> exec cfg init sched = Some st -> ~ pending st ->
+  forall id, subscribed cfg id = true -> delivered st id = sent st id.
+Proof. exact all_delivered_reachable. Qed.
+
+(* the try_send variant of demux violates safety under a slow consumer (101 chunks reach the
+   demuxer before the first dequeue); the code's blocking demuxer refuses that schedule *)
+Theorem try_send_demuxer_refuted :
+  Forall choice_wf slow_consumer_schedule /\
+  exists st, exec (plexer_cfg_try_send [2]) init slow_consumer_schedule = Some st /\
+             ~ safe (plexer_cfg_try_send [2]) st.
+Proof. exact try_send_unsafe. Qed.
+
+Theorem slow_consumer_blocks_blocking_demuxer : exec (plexer_cfg [2]) init slow_consumer_schedule = None.
+Proof. exact slow_consumer_blocks_the_code. Qed.
+
+(* non-vacuity: a two-channel schedule with fragmented arrival *)
+Example schedule_example :
+  let sched := [CEnqueue 2 [1; 2]; CEnqueue 32771 []; CMux 5; CMux 6; CArrive 3; CArrive 15; CDemux; CDemux; CDemux;
+                CDemux; CDemux; CDemux; CDequeue 32771; CEnqueue 2 [3]; CDequeue 2] in
+  Forall choice_wf sched /\
+  match exec (plexer_cfg [2; 32771]) init sched with
+  | Some st => delivered st 2 = [[1; 2]] /\ delivered st 32771 = [[]] /\ in_flight 2 st = [[3]] /\ sent st 2 = [[1; 2]; [3]]
+  | None => False
+  end.
+Proof. cbv zeta. split; [repeat constructor; unfold u16, u32, len; cbn; lia|vm_compute; repeat split]. Qed.
